@@ -537,11 +537,48 @@ func vC35GenTxn(r *vRand, access bool) *vC35Txn {
 }
 
 // everything some transaction of the group mentions (to aim probes at interesting targets)
-type vC35Mentioned struct{ accts, assets, apps []uint64 }
+type vC35BoxKey struct {
+	app  uint64
+	name []byte
+}
+type vC35Mentioned struct {
+	accts, assets, apps []uint64
+	boxes               []vC35BoxKey
+}
 
 func vC35Mentions(c *vC35Case) vC35Mentioned {
 	var m vC35Mentioned
-	for _, t := range c.group {
+	created := map[int]uint64{c.gi: c.appid}
+	for _, cr := range c.creates {
+		created[int(cr.gi)] = cr.id
+	}
+	for gi, t := range c.group {
+		if t.typ == "appl" {
+			self := t.ap.id
+			if self == 0 {
+				self = created[gi]
+			}
+			for _, b := range t.ap.boxes {
+				app := self
+				if b.idx > 0 && t.ap.fapps[b.idx-1] != 0 {
+					app = t.ap.fapps[b.idx-1]
+				}
+				if app != 0 && len(b.name) > 0 {
+					m.boxes = append(m.boxes, vC35BoxKey{app, b.name})
+				}
+			}
+			for _, rr := range t.ap.access {
+				if rr.kind == 'b' && len(rr.name) > 0 {
+					app := self
+					if rr.a > 0 {
+						app = t.ap.access[rr.a-1].a
+					}
+					if app != 0 {
+						m.boxes = append(m.boxes, vC35BoxKey{app, rr.name})
+					}
+				}
+			}
+		}
 		m.accts = append(m.accts, t.snd)
 		switch t.typ {
 		case "pay":
@@ -736,12 +773,18 @@ func vC35GenProbe(r *vRand, c *vC35Case) bool {
 			switch r.Intn(6) {
 			case 0:
 				rcv, cl := vC35TargetAcct(r, m), optA()
+				if cl == 1000+c.appid {
+					cl = 0 // WellFormed (before cx.allows): "cannot close account to its sender"
+				}
 				sb.WriteString("int pay; itxn_field TypeEnum; ")
 				setA("Receiver", rcv, true)
 				setA("CloseRemainderTo", cl, false)
 				it = vL(vSym("pay"), rcv, cl)
 			case 1, 2:
 				id, rcv, as, cl := vC35TargetAsset(r, m), vC35TargetAcct(r, m), optA(), optA()
+				if as != 0 {
+					cl = 0 // WellFormed (before cx.allows): "cannot close asset by clawback"
+				}
 				sb.WriteString(fmt.Sprintf("int axfer; itxn_field TypeEnum; int %d; itxn_field XferAsset; ", id))
 				setA("AssetReceiver", rcv, true)
 				setA("AssetSender", as, false)
@@ -753,6 +796,12 @@ func vC35GenProbe(r *vRand, c *vC35Case) bool {
 				it = vL(vSym("acfg"), id)
 			case 4:
 				id, a := vC35TargetAsset(r, m), vC35TargetAcct(r, m)
+				if a == 0 {
+					a = 1 // WellFormed (before cx.allows): "freeze account cannot be empty"
+				}
+				if id == 0 {
+					id = 401 // WellFormed: "asset ID cannot be zero"
+				}
 				sb.WriteString(fmt.Sprintf("int afrz; itxn_field TypeEnum; int %d; itxn_field FreezeAsset; ", id))
 				setA("FreezeAssetAccount", a, true)
 				it = vL(vSym("afrz"), id, a)
@@ -818,6 +867,19 @@ func vC35GenProbe(r *vRand, c *vC35Case) bool {
 					}
 					if app == 0 {
 						app = c.appid
+					}
+				}
+				if len(m.boxes) > 0 && r.Intn(3) > 0 {
+					// aim at a box some transaction names
+					k := m.boxes[r.Intn(len(m.boxes))]
+					for tries := 0; tries < 4 && v < 13 && k.app != c.appid; tries++ {
+						k = m.boxes[r.Intn(len(m.boxes))]
+					}
+					name = k.name
+					if k.app == c.appid && r.Intn(3) > 0 {
+						app = 0
+					} else if v >= 13 {
+						app = k.app
 					}
 				}
 				pre := ""
@@ -1055,8 +1117,8 @@ func vC35Run(t *testing.T, c *vC35Case) (obs vC35Obs, ok bool) {
 			obs.cls = append(obs.cls, cls)
 		}
 	} else {
-		if c.isSub && cls == 99 {
-			// the inner transaction got past cx.allows and failed later (test-ledger execution)
+		if c.isSub && cls == 99 && strings.Contains(err.Error(), "inner tx 0 failed: ") {
+			// the inner transaction got past cx.allows and failed in Ledger.Perform (test-ledger execution)
 			obs.note = "later"
 			cls = 0
 		}
@@ -1095,7 +1157,7 @@ func vC35Line(c *vC35Case, obs vC35Obs) string {
 	return sb.String()
 }
 
-// the recorded deviation (KNOWN_FINDINGS c35_zero_address_via_access), replayed on the real code:
+// the recorded deviation (KNOWN_FINDINGS c35_zero_value_via_access), replayed on the real code:
 // a v9+ call whose tx.Access holds one element that is not an address reads the zero address
 func vC35ZeroWitness() *vC35Case {
 	ap := &vC35Appl{id: 501, useAccess: true, access: []vC35Ref{{kind: 's', a: 401}}}
